@@ -1356,7 +1356,9 @@ where
                 return None;
             }
             if n > 0 {
-                let bytes_to_skip = n * element_length;
+                // Both factors derive from the wire (vector dimensions): saturate, a skip
+                // that does not fit in `usize` cannot fit in the buffer either.
+                let bytes_to_skip = n.saturating_mul(element_length);
                 if let Err(err) = self.slice.read_n_bytes(bytes_to_skip) {
                     // We checked that `n < self.remaining`, so this won't cause
                     // negative overflow.
